@@ -25,7 +25,7 @@ type rawBox struct {
 
 var rawContainers = map[string]int{ // name -> bytes to skip before the children
 	"moov": 0, "trak": 0, "mdia": 0, "minf": 0, "stbl": 0, "dinf": 0, "edts": 0, "mvex": 0, "moof": 0, "traf": 0,
-	"mfra": 0, "udta": 0, "sinf": 0, "schi": 0, "stsd": 8, "dref": 8, "meta": 4, "ilst": 0,
+	"mfra": 0, "udta": 0, "sinf": 0, "schi": 0, "tref": 0, "stsd": 8, "dref": 8, "meta": 4, "ilst": 0,
 	"avc1": 78, "encv": 78, "hvc1": 78, "hev1": 78, "mp4a": 28, "enca": 28,
 }
 
